@@ -1,4 +1,6 @@
 import CanVerif.Lemmas.GenSem
+import CanVerif.Lemmas.GenRoundTrip
+import CanVerif.Props.C03
 /-!
 # C10  A generated message is always a valid, self-consistent frame after any calls
 
@@ -9,8 +11,14 @@ Proved for every descriptor and every argument: the frame carries the declared I
 invariant whatever value of the accessor type is passed (`C10_setRaw_inv`), construction/reset establish it when the
 declared start values are in range.  The physical setter case is `_partial`: it is false for scaled unsigned signals
 of >= 54 bits (signed >= 55), see known finding F1, and needs C09's rounding analysis otherwise; the full statement is
-`C10_inv_all_statement`.  Unmarshal, re-encode, copy and the no-leak clause are decided per run on the compiled
-generated code (bin/props.py C10).
+`C10_inv_all_statement`.  For integer and bool signals in a §4.3 layout (`MsgOk`): a successful unmarshal keeps the
+invariant (`C10_unmarshal_inv`); every encoded field decodes from the frame as the stored value, so no signal's bits leak
+into another's (`C10_no_leak`); positions outside the encoded fields are zero (`C10_zero_elsewhere`); unmarshalling the
+frame into any message of the type and marshalling again reproduces it (`C10_reencode`), hence copy-from yields the
+identical frame (`C10_copy`; values are immutable in the model, so aliasing cannot be expressed and is decided per run
+on the generated code), and all histories of reset, raw setters, unmarshal and copy keep the invariant
+(`C10_inv_all_partial`).  Float32 signals are outside `MsgOk` (their NaN payloads are quieted by the float64 round
+trip of the generated code) and are decided per run.
 -/
 namespace CanVerif
 
@@ -72,17 +80,41 @@ proved; unmarshal and physical setters are not in this list). -/
 inductive SafeOp
   | reset
   | setRaw (i : Nat) (v : Int)
+  | unmarshal (f : Frame)
+  | copyFrom (src : GState)   -- copy from a message in any state whatsoever
+
+/-- A successful unmarshal keeps every field inside its representable range. -/
+theorem C10_unmarshal_inv (m : DMessage) (st st' : GState) (f : Frame) (hok : ∀ s ∈ m.signals, SigOk s)
+    (hinv : Inv m st = true) (h : unmarshalFrame m st f = some st') : Inv m st' = true :=
+  unmarshalFrame_inv m st st' f hok hinv h
+
+/-- … and so does copy-from, whatever the source holds. -/
+theorem C10_copy_inv (m : DMessage) (dst src : GState) (hok : ∀ s ∈ m.signals, SigOk s)
+    (hinv : Inv m dst = true) : Inv m (copyFrom m dst src) = true := by
+  unfold copyFrom
+  cases h : unmarshalFrame m dst (frameOf m src) with
+  | none => exact hinv
+  | some st' => exact unmarshalFrame_inv m dst st' _ hok hinv h
 
 def applySafe (m : DMessage) (st : GState) : SafeOp → GState
   | .reset => newState m
   | .setRaw i v => match m.signals[i]? with
     | some s => ⟨setAt st.vals i (setRaw s v)⟩
     | none => st
+  | .unmarshal f => (unmarshalFrame m st f).getD st
+  | .copyFrom src => copyFrom m st src
 
 theorem C10_inv_all_partial (m : DMessage) (ops : List SafeOp)
     (hdef : ∀ s ∈ m.signals, rawInRange s (resetVal s) = true)
-    (hcls : ∀ s ∈ m.signals, 1 ≤ s.length ∧ s.length ≤ 64 ∧ kindOf s ≠ .float) :
+    (hcls : ∀ s ∈ m.signals, SigOk s) :
     Inv m (ops.foldl (applySafe m) (newState m)) = true := by
+  have hk : ∀ s ∈ m.signals, kindOf s ≠ .float := by
+    intro s hs hk
+    have hf := (hcls s hs).nofloat
+    unfold kindOf at hk
+    simp only [hf, Bool.and_false, Bool.false_eq_true, if_false] at hk
+    repeat' split at hk
+    all_goals cases hk
   have hstep : ∀ st op, Inv m st = true → Inv m (applySafe m st op) = true := by
     intro st op hi
     cases op with
@@ -95,8 +127,13 @@ theorem C10_inv_all_partial (m : DMessage) (ops : List SafeOp)
       | none => exact hi
       | some s =>
         have hm : s ∈ m.signals := List.mem_of_getElem? hs
-        obtain ⟨a, b, c⟩ := hcls s hm
-        exact C10_setRaw_inv m st i s v hi hs a b c
+        exact C10_setRaw_inv m st i s v hi hs (hcls s hm).l1 (hcls s hm).l64 (hk s hm)
+    | unmarshal f =>
+      show Inv m ((unmarshalFrame m st f).getD st) = true
+      cases h : unmarshalFrame m st f with
+      | none => exact hi
+      | some st' => exact C10_unmarshal_inv m st st' f hcls hi h
+    | copyFrom src => exact C10_copy_inv m st src hcls hi
   have : ∀ (l : List SafeOp) st, Inv m st = true → Inv m (l.foldl (applySafe m) st) = true := by
     intro l
     induction l with
@@ -104,12 +141,95 @@ theorem C10_inv_all_partial (m : DMessage) (ops : List SafeOp)
     | cons o os ih => intro st h; exact ih _ (hstep st o h)
   exact this ops _ (C10_inv_init m hdef)
 
+/-- No leak: in the produced frame every encoded field (plain signals, and multiplexed signals whose selector equals
+the stored multiplexer value) decodes, at its own layout, to exactly the stored value: the bits of one signal never
+disturb another's. -/
+theorem C10_no_leak (m : DMessage) (st : GState) (hm : MsgOk m) (hinv : Inv m st = true)
+    (p : DSignal × Raw) (hp : p ∈ m.signals.zip st.vals)
+    (hc : p.1.muxed = false ∨ c2of m st.vals p.1 = true) : unmarshalField p.1 (frameOf m st).data = p.2 :=
+  frame_read m st hm hinv p hp (hc.imp (fun h => by unfold c1; simp [h]) id)
+
+/-- … and every payload position outside the encoded fields is zero. -/
+theorem C10_zero_elsewhere (m : DMessage) (st : GState) (hm : MsgOk m) (hinv : Inv m st = true) (k : Nat)
+    (hout : ∀ p ∈ m.signals.zip st.vals, (p.1.muxed = false ∨ c2of m st.vals p.1 = true) →
+      ∀ i, i < p.1.length → p.1.rng.pos i ≠ k) : payloadBit (frameOf m st).data k = false :=
+  C03_zero_elsewhere m st hm hinv k hout
+
+/-- Unmarshalling a message's own frame into any message of the type (fresh or not) and marshalling again
+reproduces the identical frame. -/
+theorem C10_reencode (m : DMessage) (st st0 st' : GState) (hm : MsgOk m) (hinv : Inv m st = true)
+    (hlen0 : st0.vals.length = m.signals.length)
+    (h : unmarshalFrame m st0 (frameOf m st) = some st') : frameOf m st' = frameOf m st :=
+  reencode m st st0 st' hm hinv hlen0 h
+
+/-- A message's own frame is always accepted by its `UnmarshalFrame` (descriptor in class). -/
+theorem C10_own_frame_accepted (m : DMessage) (st st0 : GState) (hlen : m.length ≤ 8) (hid : m.id ≤ 0x1fffffff) :
+    (unmarshalFrame m st0 (frameOf m st)).isSome = true := by
+  rw [C03_accept_iff]
+  obtain ⟨h1, h2, h3, h4⟩ := C10_frame_header m st
+  rw [h1, h2, h3, h4]
+  refine ⟨?_, ?_, rfl, rfl⟩
+  · simp; omega
+  · simp; omega
+
+/-- Copy-from yields a message with the identical frame. -/
+theorem C10_copy (m : DMessage) (dst src : GState) (hm : MsgOk m) (hinv : Inv m src = true)
+    (hlen0 : dst.vals.length = m.signals.length) (hlen : m.length ≤ 8) (hid : m.id ≤ 0x1fffffff) :
+    frameOf m (copyFrom m dst src) = frameOf m src := by
+  unfold copyFrom
+  have hs := C10_own_frame_accepted m src dst hlen hid
+  cases h : unmarshalFrame m dst (frameOf m src) with
+  | none => rw [h] at hs; cases hs
+  | some st' => exact reencode m src dst st' hm hinv hlen0 h
+
 /-- Full statement (not proved; F1 is a counterexample on the unchanged tree): with physical setters and unmarshal
 included, every reachable state satisfies the invariant. -/
 def C10_inv_all_statement : Prop :=
   ∀ (m : DMessage) (st : GState) (i : Nat) (s : DSignal) (x : F64),
     Inv m st = true → m.signals[i]? = some s → hasPhysical s = true → f64IsNaN x = false →
     Inv m ⟨setAt st.vals i (setPhys s x)⟩ = true
+
+/-- non-vacuity of `MsgOk`: a multiplexer, two multiplexed signals sharing bits 8..15 under different selectors, and
+a signed plain signal -/
+def exSig (start len : Nat) (signed mux muxed : Bool) (mv : Nat) : DSignal :=
+  { name := [], start := start, length := len, bigEndian := false, signed := signed, mux := mux, muxed := muxed,
+    muxValue := mv, offset := 0, scale := 0x3ff0000000000000, min := 0, max := 0, unit := [], receivers := [] }
+
+def exMsg : DMessage :=
+  { name := [], id := 0x123, extended := false, length := 8, sender := [],
+    signals := [exSig 0 2 false true false 0, exSig 8 8 false false true 0, exSig 8 8 true false true 1,
+                exSig 16 12 true false false 0] }
+
+theorem exSig_ok (start len : Nat) (signed mux muxed : Bool) (mv : Nat) (h1 : 1 ≤ len) (h2 : start + len ≤ 64) :
+    SigOk (exSig start len signed mux muxed mv) :=
+  ⟨h1, by show len ≤ 64; omega, by show Range.Fits _; unfold Range.Fits FitsLE; simp [exSig, DSignal.sig, Sig.range]; omega, rfl⟩
+
+theorem exSig_disj (s1 l1 s2 l2 : Nat) (a b c d e f : Bool) (m1 m2 : Nat) (h : s1 + l1 ≤ s2 ∨ s2 + l2 ≤ s1) :
+    (exSig s1 l1 a b c m1).rng.Disjoint (exSig s2 l2 d e f m2).rng := by
+  intro i j hi hj
+  simp only [DSignal.rng, DSignal.sig, Sig.range, exSig, Range.pos] at *
+  simp only [Bool.false_eq_true, if_false]
+  omega
+
+example : MsgOk exMsg := by
+  refine ⟨?_, ?_, ?_⟩
+  · intro s hs
+    simp only [exMsg, List.mem_cons, List.mem_nil_iff, or_false] at hs
+    rcases hs with rfl | rfl | rfl | rfl <;> exact exSig_ok _ _ _ _ _ _ (by decide) (by decide)
+  · simp only [exMsg, List.pairwise_cons, List.mem_cons, List.mem_nil_iff, or_false, forall_eq_or_imp, forall_eq,
+      List.Pairwise.nil, and_true, List.not_mem_nil, false_imp_iff, implies_true]
+    refine ⟨⟨?_, ?_, ?_⟩, ⟨?_, ?_⟩, ?_⟩
+    · intro _; exact exSig_disj _ _ _ _ _ _ _ _ _ _ _ _ (by decide)
+    · intro _; exact exSig_disj _ _ _ _ _ _ _ _ _ _ _ _ (by decide)
+    · intro _; exact exSig_disj _ _ _ _ _ _ _ _ _ _ _ _ (by decide)
+    · intro h; simp [exSig] at h
+    · intro _; exact exSig_disj _ _ _ _ _ _ _ _ _ _ _ _ (by decide)
+    · intro _; exact exSig_disj _ _ _ _ _ _ _ _ _ _ _ _ (by decide)
+  · intro s hs hmux
+    simp only [exMsg, List.mem_cons, List.mem_nil_iff, or_false] at hs
+    rcases hs with rfl | rfl | rfl | rfl <;> simp [exSig] at hmux ⊢
+
+example : Inv exMsg ⟨[1, 200, -100, -2048]⟩ = true := by decide
 
 /-- non-vacuity: a two-signal message whose start values are in range -/
 example : Inv
